@@ -231,6 +231,13 @@ func runC11(rc *RunCtx) {
 			return resp.(coilResp).IsCoilSet(uint16(start), a)
 		}
 		interlude()
+		if t.Chance(1, 2) {
+			// the application logs what it received before it looks anything up (once, or twice)
+			logLine(resp)
+			if t.Chance(1, 3) {
+				logLine(resp)
+			}
+		}
 		addrs := map[int]bool{}
 		for a := start; a < start+8*payloadBytes && a < 65536; a++ {
 			if qty <= 300 || a < start+20 || a >= start+qty-20 || t.Chance(1, 16) {
